@@ -40,9 +40,15 @@ ZA = {"type": "record", "name": "ZA", "fields": [{"name": "x", "type": "int"}]} 
 LB = {"type": "record", "name": "Labelled", "fields": [{"name": "label", "type": "string", "default": "none"}]}
 LN = {"type": "record", "name": "MaybeLabelled", "fields": [{"name": "label", "type": ["null", "string"], "default": None}]}
 A2 = {"type": "record", "name": "A2", "fields": [{"name": "x", "type": "int"}]}  # same shape as A: only a hint tells them apart
+NARROW = {"type": "record", "name": "Narrow", "fields": [{"name": "vals", "type": {"type": "array", "items": "int"}}]}
+WIDE = {"type": "record", "name": "Wide", "fields": [{"name": "vals", "type": {"type": "array", "items": "long"}}]}
+# a field alias is a READER-side renaming aid; it is not one of the names a datum shares with a branch
+COMMENT = {"type": "record", "name": "Comment", "fields": [{"name": "id", "type": "int"}, {"name": "note", "type": "string", "default": ""}]}
+ARTICLE = {"type": "record", "name": "Article", "fields": [{"name": "id", "type": "int"}, {"name": "title", "type": "string", "default": "", "aliases": ["name", "note2"]}]}
+
 POOL = [
     "null", "boolean", "int", "long", "float", "double", "string", "bytes", family.E(), family.E2(), family.F(), {"type": "array", "items": "int"},
-    {"type": "map", "values": "int"}, A, B, C, {"type": "int", "logicalType": "date"}, {"type": "double", "unit": "metres"}, A2, ZA, LB, LN,
+    {"type": "map", "values": "int"}, A, B, C, {"type": "int", "logicalType": "date"}, {"type": "double", "unit": "metres"}, A2, ZA, LB, LN, NARROW, WIDE, COMMENT, ARTICLE,
 ]
 
 
@@ -133,6 +139,8 @@ def ambiguous(u):
                     fnames.append(f["name"])
                     ftype[f["name"]] = f["type"]
         def bv(t):
+            if isinstance(t, dict) and t.get("type") == "array":
+                return [1]
             return {"int": 1, "string": "s"}.get(t if isinstance(t, str) else None, "s" if isinstance(t, list) else 1)
 
         for n in range(len(fnames) + 1):
@@ -143,6 +151,10 @@ def ambiguous(u):
             out.append(dict(d, **{"-type": r["name"]}))
         out.append({"x": 1, "-type": "Unknown"})
     out += [{"label": None}, {"label": "x"}, {"label": None, "-type": "MaybeLabelled"}, ("MaybeLabelled", {"label": None}), ("Labelled", {"label": "y"})]
+    import array as _array
+
+    out += [{"vals": [1, 2 ** 40]}, {"vals": _array.array("q", [1, 2 ** 40])}, {"vals": [1] * 100 + [2 ** 40]}, {"vals": _array.array("q", [1, 2])}, {"vals": [1] * 300},
+            {"id": 7, "name": "x"}, {"id": 7, "note2": "x", "name": "y"}, {"id": 7, "title": "t"}, {"id": 7}]
     out += [("A", {"x": 1}), ("ZA", {"x": 1}), ("Nope", {"x": 1}), ("E", "B"), ("E2", "B"), ("Nope", "B")]
     out += [5, 1.5, 1, b"ab", "A", "B", "Z", None, True, [1], {"k": 1}, {}, datetime.date(2020, 2, 29), ("Unknown", 1), ("int", 7), ("double", 2.5), ("float", 2.5)]
     return out
@@ -358,9 +370,9 @@ def run_unit(i, tier):
             # hints must use full names in this context
             fixed = []
             for d in udata:
-                if isinstance(d, tuple) and len(d) == 2 and d[0] in ("A", "B", "C", "E", "E2", "F", "A2", "ZA", "Labelled", "MaybeLabelled"):
+                if isinstance(d, tuple) and len(d) == 2 and d[0] in ("A", "B", "C", "E", "E2", "F", "A2", "ZA", "Labelled", "MaybeLabelled", "Narrow", "Wide", "Comment", "Article"):
                     fixed.append(("nsw." + d[0], d[1]))
-                if isinstance(d, dict) and d.get("-type") in ("A", "B", "C", "A2", "ZA", "Labelled", "MaybeLabelled"):
+                if isinstance(d, dict) and d.get("-type") in ("A", "B", "C", "A2", "ZA", "Labelled", "MaybeLabelled", "Narrow", "Wide", "Comment", "Article"):
                     fixed.append(dict(d, **{"-type": "nsw." + d["-type"]}))
                 fixed.append(d)
             data = [dict(base, u=d) for d in fixed]
